@@ -1242,3 +1242,51 @@ T('lock-alias-tests-is-not-none', ['C02'],
       "if msvcrt is not None:\n    FileLock = WindowsFileLock  # type: ignore\nelif fcntl is not None:\n    FileLock = UnixFileLock  # type: ignore\n"))
 B('buf-queue-bounded', ['C03'], ['C03-S8'],
   (A, "        self.q: 'aio.Queue[AsyncIterable[T]]' = aio.Queue()\n", "        self.q: 'aio.Queue[AsyncIterable[T]]' = aio.Queue(maxsize=1024)\n"))
+# --- indirect breaks probed by hand -------------------------------------------------------------------
+B('buf-daemon-on-a-private-loop', ['C03'], ['C03-S8'],
+  (A, "        self.loop = aio.get_event_loop()\n", "        self.loop = aio.new_event_loop()\n"))
+B('lock-is-locked-reads-the-counter', ['C02', 'C12'], ['C02-R1', 'C12-R1'],
+  (F, "        return self._lock_file_fd is not None\n", "        return self._lock_counter > 0\n"))
+B('buf-awaitable-adaptor-does-not-await', ['C03'], ['C03-S7'],
+  (A, "    yield await o\n", "    yield o\n"))
+
+# --- rules from seeded wave 10 (indirect changes) ------------------------------------------------------
+B('lock-setstate-carries-held-state', ['C02'], ['C02-R3'],
+  (F, "    def __enter__(self: FileLockT) -> FileLockT:\n", "    def __getstate__(self) -> Any:\n        state = self.__dict__.copy()\n        del state['_thread_lock']\n        return state\n\n    def __setstate__(self, state: Any) -> None:\n        self.__dict__.update(state)\n        self._thread_lock = threading.RLock() if self._reentrant else threading.Lock()\n\n    def __enter__(self: FileLockT) -> FileLockT:\n"))
+T('lock-setstate-resets-held-state', ['C02'],
+  (F, "    def __enter__(self: FileLockT) -> FileLockT:\n", "    def __getstate__(self) -> Any:\n        state = self.__dict__.copy()\n        del state['_thread_lock']\n        return state\n\n    def __setstate__(self, state: Any) -> None:\n        self.__dict__.update(state)\n        self._thread_lock = threading.RLock() if self._reentrant else threading.Lock()\n        self._lock_file_fd = None\n        self._lock_counter = 0\n\n    def __enter__(self: FileLockT) -> FileLockT:\n"))
+B('lock-exit-forces-on-exception', ['C12'], ['C12-R14'],
+  (F, "    def __exit__(self, *_exc: Any) -> None:\n        self.release()\n", "    def __exit__(self, exc_type: Any = None, *_exc: Any) -> None:\n        self.release(force=exc_type is not None)\n"))
+B('lock-path-normalised', ['C02'], ['C02-R9'],
+  (F, "        self._lock_file: PathLike = lock_file\n", "        self._lock_file: PathLike = os.path.normpath(lock_file)\n"))
+T('lock-path-fspath', ['C02'],
+  (F, "        self._lock_file: PathLike = lock_file\n", "        self._lock_file: PathLike = os.fspath(lock_file)\n"))
+B('lock-release-closes-without-unlock', ['C02'], ['C02-R6'],
+  (F, "        try:\n            self._unlock(fd)\n        finally:\n            os.close(fd)\n", "        try:\n            os.close(fd)\n        except OSError:\n            self._unlock(fd)\n            raise\n"))
+B('loop-in-thread-runs-loop-again', ['C17'], ['C17-R7'],
+  (A, "            aio.set_event_loop(loop)\n            loop.run_forever()\n", "            aio.set_event_loop(loop)\n            try:\n                loop.run_forever()\n            finally:\n                loop.run_until_complete(loop.shutdown_asyncgens())\n"))
+B('buf-logging-name-unbound', ['C03'], ['C03-U1'],
+  (A, "import logging\n", "from logging import getLogger\n"),
+  (A, "logger = logging.getLogger(__name__)\n", "logger = getLogger(__name__)\n"))
+B('buf-map-snapshots-in-the-caller', ['C03'], ['C03-S7'],
+  (A, "        self._put(to_async_iter(_args))\n", "        _args = tuple(_args)\n        self._put(to_async_iter(_args))\n"))
+B('buf-handler-sorts-the-inputs', ['C03'], ['C03-S3'],
+  (A, "            logging.exception(\"Failed to run %s, retrying\", self.func)\n", "            logging.exception(\"Failed to run %s, retrying with %s\", self.func, sorted(inputs))\n"))
+B('buf-func-wrapped-in-init', ['C08'], ['C08-D1'],
+  (A, "        self.func = func\n        #: Timeout in seconds to wait after the last element", "        self.func = wraps(func)(func) if aio.iscoroutinefunction(func) else func\n        #: Timeout in seconds to wait after the last element"))
+B('bat-done-callback-fails-pending', ['C09'], ['C09-R7'],
+  (A, "    async def _processing_loop(self) -> None:\n", "    def _fail_pending(self, exc: BaseException) -> None:\n        for fut in self._retention_cache.values():\n            if not fut.done():\n                fut.set_exception(exc)\n\n    async def _processing_loop(self) -> None:\n"))
+B('bat-memo-of-last-batcher-copied', ['C15'], ['C15-R3'],
+  (A, "        = WeakKeyDict()\n", "        = WeakKeyDict()\n    current = None\n"),
+  (A, """        loop = aio.get_running_loop()
+        try:
+            batcher = batchers[loop]
+        except KeyError:
+            batcher = batchers[loop] = AsyncBackgroundBatcher(""", """        nonlocal current
+        loop = aio.get_running_loop()
+        batcher = current
+        if batcher is None or not batcher._loop.is_running():
+          try:
+            batcher = batchers[loop]
+          except KeyError:
+            batcher = batchers[loop] = AsyncBackgroundBatcher("""))
